@@ -377,6 +377,64 @@ func (th *Thread) sprintf(format string, args []Value) (Value, Value) {
 	return out, wrapped
 }
 
+// sprintfV accepts a rope as format: concrete segments are interpreted as format text,
+// symbolic segments are copied (a dec segment cannot contain '%'; a symbolic byte equal
+// to '%' is outside the model and recorded as a stub).
+func (th *Thread) sprintfV(format Value, args []Value) (Value, Value) {
+	switch f := format.(type) {
+	case string:
+		return th.sprintf(f, args)
+	case *Rope:
+		var out Value = ""
+		var wrapped Value
+		for _, sg := range f.Segs {
+			if sg.B != nil {
+				th.stub("fmt:symbolic byte in format string")
+				out = concatStr(out, &Rope{Segs: []Seg{sg}})
+				continue
+			}
+			if sg.D != nil {
+				out = concatStr(out, &Rope{Segs: []Seg{sg}})
+				continue
+			}
+			// count verbs to split args
+			piece, w := th.sprintfPartial(sg.S, &args)
+			if w != nil {
+				wrapped = w
+			}
+			out = concatStr(out, piece)
+		}
+		if len(args) > 0 {
+			out = concatStr(out, "%!(EXTRA)")
+		}
+		return out, wrapped
+	}
+	panic("sprintfV")
+}
+
+func (th *Thread) sprintfPartial(format string, args *[]Value) (Value, Value) {
+	// number of verbs in this piece
+	n := 0
+	for i := 0; i < len(format); i++ {
+		if format[i] == '%' {
+			j := i + 1
+			for j < len(format) && strings.IndexByte("+#- 0123456789.", format[j]) >= 0 {
+				j++
+			}
+			if j < len(format) && format[j] != '%' {
+				n++
+			}
+			i = j
+		}
+	}
+	if n > len(*args) {
+		n = len(*args)
+	}
+	use := (*args)[:n]
+	*args = (*args)[n:]
+	return th.sprintf(format, use)
+}
+
 func (th *Thread) sprint(args []Value, ln bool) Value {
 	var out Value = ""
 	prevString := false
@@ -397,7 +455,7 @@ func (th *Thread) sprint(args []Value, ln bool) Value {
 
 func registerFmt(in *Interp) {
 	in.reg("fmt.Sprintf", func(th *Thread, fn *ssa.Function, a []Value) Value {
-		s, _ := th.sprintf(th.str(a[0], "format"), a[1].([]Value))
+		s, _ := th.sprintfV(a[0], a[1].([]Value))
 		return s
 	})
 	in.reg("fmt.Sprint", func(th *Thread, fn *ssa.Function, a []Value) Value {
@@ -407,7 +465,7 @@ func registerFmt(in *Interp) {
 		return th.sprint(a[0].([]Value), true)
 	})
 	in.reg("fmt.Errorf", func(th *Thread, fn *ssa.Function, a []Value) Value {
-		s, w := th.sprintf(th.str(a[0], "format"), a[1].([]Value))
+		s, w := th.sprintfV(a[0], a[1].([]Value))
 		if w != nil {
 			wt := in.Prog.ImportedPackage("fmt").Type("wrapError").Object().Type()
 			return Iface{T: types.NewPointer(wt), V: ptrTo(Struct{s, w})}
